@@ -306,6 +306,27 @@ def post_load_mask_clauses(col, K):
     return problems
 
 
+def scope_leak_problems(text, fault, K):
+    """a reference to a name that is defined only in ANOTHER scope (another effect's sid, another
+    geometry's source, another scene's node) must behave exactly like a reference to an undefined
+    name: same escaping class, same recorded error classes, same loaded values - it is dangling and
+    must never be bound to the other scope's object"""
+    from harness.gen import faults as F
+    a = F.apply_faults(text, [fault])
+    b = F.apply_faults(text, [F.dangling_twin(fault)])
+    problems = []
+    for ign, nm in ((None, 'no ignore'), ([K['DaeError']], 'ignore=[DaeError]')):
+        ra, rb = load(a, ign), load(b, ign)
+        if ra['esc_name'] != rb['esc_name'] or ra['err_names'] != rb['err_names']:
+            problems.append('%s: the reference %r, defined only in another scope, gives %s/%s; an undefined name there gives %s/%s'
+                            % (nm, fault['value'], ra['esc_name'], ra['err_names'], rb['esc_name'], rb['err_names']))
+        elif ra['snapshot'] != rb['snapshot']:
+            diff = [x[:2] for x, y in zip(ra['snapshot'] or [], rb['snapshot'] or []) if x != y]
+            problems.append('%s: the reference %r, defined only in another scope, is bound to something: the loaded objects %s '
+                            'differ from those loaded with an undefined name in its place' % (nm, fault['value'], diff[:3]))
+    return problems
+
+
 def run_doc_case(case, bases, base_cache):
     from harness.gen import faults as F
     text = bases[case['base']]
@@ -384,6 +405,10 @@ def run_doc_case(case, bases, base_cache):
         if len(case['faults']) == 1 and case['faults'][0]['kind'] == 'dangling' and label in DANGLING_IS_BROKENREF:
             if sesc != 'DaeBrokenRefError':
                 fail('dangling-kind', 'a dangling reference (%s) gives %s instead of DaeBrokenRefError' % (label, sesc), str(sesc))
+        # ---- clause: a name defined in another scope is dangling
+        if len(case['faults']) == 1 and case['faults'][0]['kind'] == 'crossref':
+            for what in scope_leak_problems(text, case['faults'][0], K):
+                fail('scope-leak', what)
         # ---- clause: containment + nothing invented
         base = base_cache[case['base']]
         root = F.parse(text)
